@@ -25,7 +25,7 @@ ASSUMPTIONS = [
     'plain-text mentions of a hidden name (e.g. the unlinked name of a hidden base in a class header) are allowed',
     'only the five listing places the statement names are judged for the private marker',
 ]
-FLOOR = {'quick': 300, 'thorough': 1500}
+FLOOR = {'quick': 300, 'thorough': 1000}
 SPACE = {'quick': 'single-feature projects x every visible object x {HIDDEN exact, HIDDEN pattern, PRIVATE exact} (sidebar depth 2)',
          'thorough': 'quick + PRIVATE by pattern, sidebar depth 3, and all pairs of objects hidden together on 12 projects'}
 JOB_TIMEOUT = 2300
